@@ -63,14 +63,10 @@ def stf_vonKarman(r, L0):
         von Karman structure function with r = (D / r0)
         L0 is in unit of telescope diameter, typically a few (3; or 20m)
     '''
-    r0 = 1
-    with np.errstate(invalid="ignore"):
-        D_vk = (0.17253 * (L0 / (r0)) ** (5. / 3.)
-                * (1 - 2 * np.pi ** (5. / 6.) * ((r) / L0) ** (5. / 6.)
-                   / scipy.special.gamma(5. / 6.)
-                   * scipy.special.kv(5. / 6., (2 * np.pi * r) / L0)))
-    # At zero separation the Bessel term is 0 * inf = nan; the structure function there is 0
-    D_vk = np.where(np.equal(r, 0), 0., D_vk)[()]
+    # one implementation for both copies (the slope covariance code holds the
+    # numerically careful one: double precision, series for r << L0)
+    from ..turbulence.slopecovariance import structure_function_vk
+    D_vk = structure_function_vk(r, 1., L0)
     return D_vk
 
 
